@@ -219,7 +219,7 @@ def run(tier, seed):
     ev.cov["traces_validated_against_impl"] = len(behs)
     ev.cov["distinct_nontrivial"] = sum(1 for h in behs if len({s["i"] for s in h}) >= 2)
     ev.cov["behaviours"] = len(behs)
-    ev.cov["rule"] = (f"statement histories of KgMachine.tla over an alphabet of 41 statements (incl. module entry/exit and amend-in-depth of mixed lists): the complete tree to depth {depth} and "
+    ev.cov["rule"] = (f"statement histories of KgMachine.tla over an alphabet of 45 statements (incl. module entry/exit and amend-in-depth of mixed lists): the complete tree to depth {depth} and "
                       f"seeded -simulate behaviours of length 9; every step executed in A (whole history) and B (fresh, pre-state "
                       f"loaded); non-trivial = at least two different statements")
     ev.sample({"history": [render_stmt(x["stmt"]) for x in behs[0]], "values": [canon.show(x["val"]) for x in behs[0]]})
